@@ -14,6 +14,7 @@ import (
 	"sort"
 	"strings"
 	"sync"
+	"sync/atomic"
 	"testing"
 	"testing/synctest"
 	"time"
@@ -300,17 +301,23 @@ func (d *dbgRec) Write(p []byte) (int, error) {
 
 type probeDecor struct {
 	decor.WC
-	r     *run
-	name  string // b1p0
-	bar   string
-	side  string
-	idx   int
-	spec  DecorSpec
-	calls int
-	col   int // ordinal among the synchronised decorators of its side, -1 if not synchronised
+	r        *run
+	name     string // b1p0
+	bar      string
+	side     string
+	idx      int
+	spec     DecorSpec
+	calls    int
+	col      int          // ordinal among the synchronised decorators of its side, -1 if not synchronised
+	lastN    int64        // written by EwmaUpdate, read by Decor (no lock: the library serialises the two)
+	updating atomic.Int32 // EwmaUpdate calls in progress
 }
 
 func (d *probeDecor) Decor(s decor.Statistics) (string, int) {
+	if d.updating.Load() > 0 {
+		d.r.rec(Event{"ev": "overlap", "d": d.name, "b": d.bar, "what": "Decor while EwmaUpdate is running"})
+	}
+	_ = d.lastN
 	need := 0
 	if n := len(d.spec.Needs); n > 0 {
 		need = d.spec.Needs[d.calls%n]
@@ -380,7 +387,18 @@ func (d listenDecor) OnShutdown() {
 
 type ewmaDecor struct{ *probeDecor }
 
+// noteUpdate: an EWMA decorator keeps what it was told in plain fields, like the library's own decorators do; the
+// library runs EwmaUpdate in a goroutine of its own and joins it before the bar's goroutine goes on, so Decor and
+// EwmaUpdate never overlap and need no lock.
+func (d *probeDecor) noteUpdate(n int64) {
+	d.updating.Add(1)
+	d.slow()
+	d.lastN = n
+	d.updating.Add(-1)
+}
+
 func (d ewmaDecor) EwmaUpdate(n int64, dur time.Duration) {
+	d.noteUpdate(n)
 	d.r.rec(Event{"ev": "ewma", "d": d.name, "b": d.bar, "n": n, "dur": int64(dur)})
 }
 
@@ -392,6 +410,7 @@ func (d listenEwmaDecor) OnShutdown() {
 	d.r.rec(d.askBar())
 }
 func (d listenEwmaDecor) EwmaUpdate(n int64, dur time.Duration) {
+	d.noteUpdate(n)
 	d.r.rec(Event{"ev": "ewma", "d": d.name, "b": d.bar, "n": n, "dur": int64(dur)})
 }
 
@@ -828,6 +847,9 @@ func (r *run) exec(c, i int, op *Op) {
 		parts := []string{op.Line + "\n"}
 		if op.Chunks {
 			parts = []string{op.Line, "\n"}
+		}
+		if op.Empty {
+			parts = []string{""} // io.Writer: an empty slice is a valid argument
 		}
 		total, full := 0, true
 		var err error
